@@ -10,7 +10,7 @@ value   := list of atoms:  str                      literal characters (source =
                            ['b', value]             balanced braces inside text: source and meaning `{…}`
                            ['#']                    repeater placeholder `$#` (wrap text)
 mention := ['#', value|None] | ['.', value|None] | ['a', name, form, value|None, joined]
-           form ∈ none raw dq sq expr bool impl impl-raw impl-dq impl-sq impl-expr
+           form ∈ none raw dq sq expr bool impl impl-bool impl-raw impl-dq impl-sq impl-expr
 Everything is JSON; the serializer and the reference interpreter below are independent of the library.
 """
 import itertools
@@ -74,6 +74,8 @@ def ser_mentions(ms):
             out.append(name + '.')
         elif form == 'impl':
             out.append('!' + name)
+        elif form == 'impl-bool':
+            out.append('!' + name + '.')
         else:
             pre = '!' if form.startswith('impl-') else ''
             f = form[5:] if pre else form
@@ -206,9 +208,9 @@ def den_mention(m, ctr, line=None):
     _, name, form, val, _j = m
     impl = form.startswith('impl')
     f = form[5:] if form.startswith('impl-') else form
-    vt = {'none': 'raw', 'raw': 'raw', 'dq': 'dq', 'sq': 'sq', 'expr': 'expr', 'bool': 'raw', 'impl': 'raw'}[f]
+    vt = {'none': 'raw', 'raw': 'raw', 'dq': 'dq', 'sq': 'sq', 'expr': 'expr', 'bool': 'raw', 'impl': 'raw'}[f if f != 'bool' or not impl else 'bool']
     has_val = f in ('raw', 'dq', 'sq', 'expr')
-    return {'name': name, 'value': den_value(val or [], ctr, line) if has_val else None, 'vt': vt, 'bool': form == 'bool', 'impl': impl}
+    return {'name': name, 'value': den_value(val or [], ctr, line) if has_val else None, 'vt': vt, 'bool': form in ('bool', 'impl-bool'), 'impl': impl}
 
 
 class Budget:
